@@ -14,7 +14,7 @@ use oracle::{gf, segment};
 use serde_json::json;
 
 pub const ID: &str = "C02";
-pub const FAMS: [&str; 4] = ["cell-full", "cell-short", "cell-random", "crafted-blocks"];
+pub const FAMS: [&str; 5] = ["cell-full", "cell-short", "cell-random", "crafted-blocks", "fingerprint-collision-pair"];
 
 pub fn jobs(ctx: &Ctx) -> Vec<Job> {
     let caps = &ctx.caps;
@@ -60,10 +60,86 @@ pub fn jobs(ctx: &Ctx) -> Vec<Job> {
             }
         }
     }
+    // pairs of different payloads of one length whose DATA CODEWORDS (or whose bytes) collide under a popular cheap
+    // fingerprint (collide.rs), built one right after the other on the same thread with the same options:
+    // aux[0] = hash id, aux[1] = 0 codewords / 1 payload bytes are the hashed object
+    for h in 0..crate::collide::HASH_NAMES.len() {
+        for obj in 0..2i64 {
+            for rep in 0..ctx.tier.pick(1usize, 6) {
+                k += 1;
+                let v = [2usize, 3, 4, 5, 7, 6][(h + rep) % 6];
+                let level = (h + obj as usize + rep) % 4;
+                jobs.push(Job { fam: FAMS[4], class: 2, mode: Some(2), level: Some(level), version: Some(v), mask: rotate_mask(k), len: caps.cap(v, level, 2).min(30), gen: 0, seed: mix(ctx.seed, k as u64), aux: [h as i64, obj, 0, 0], ..Default::default() });
+            }
+        }
+    }
     jobs
 }
 
+/// family "fingerprint-collision-pair": find the pair, then judge both builds like any other
+fn observe_pair(ctx: &Ctx, st: &mut Stats, job: &Job) {
+    let (h, on_bytes) = (job.aux[0] as usize, job.aux[1] == 1);
+    let (v, level) = (job.version.unwrap(), job.level.unwrap());
+    let len = job.len;
+    let base: Vec<u8> = {
+        let mut rng = Rng::new(job.seed);
+        let mut p: Vec<u8> = b"https://e.com/t/".iter().copied().take(len.saturating_sub(8)).collect();
+        while p.len() < len {
+            p.push(b'a' + rng.below(26) as u8);
+        }
+        p
+    };
+    // variants: the last 8 bytes are lower-case letters / digits derived from the index
+    let make_payload = |i: u64| -> Vec<u8> {
+        let mut p = base.clone();
+        let mut x = oracle::rng::mix(job.seed ^ 0x9a17, i);
+        let n = p.len();
+        for q in p[n - 8..].iter_mut() {
+            *q = b"abcdefghijklmnopqrstuvwxyz0123456789"[(x % 36) as usize];
+            x /= 36;
+        }
+        if oracle::tables::classify(&p) != 2 {
+            p[n - 1] = b'z';
+        }
+        p
+    };
+    let make = |i: u64| -> Vec<u8> {
+        let p = make_payload(i);
+        if on_bytes {
+            p
+        } else {
+            oracle::segment::data_codewords(2, v, level, &p).unwrap_or(p)
+        }
+    };
+    let pair = match crate::collide::find_pair(h, 1 << 18, make) {
+        Some(p) => p,
+        None => {
+            st.count("collision_searches_without_result", 1);
+            return;
+        }
+    };
+    for (first, second) in [(pair.0, pair.1), (pair.1, pair.0)] {
+        for i in [first, second] {
+            let j = Job { fam: FAMS[2], payload: Some(make_payload(i)), aux: [0; 4], ..job.clone() };
+            let before = st.violations.len();
+            observe(ctx, st, &j);
+            if st.violations.len() > before {
+                for vio in &mut st.violations[before..] {
+                    vio.detail = format!("{} (one of two payloads whose {} collide under {}, built right after the other on the same thread)", vio.detail, if on_bytes { "bytes" } else { "data codewords" }, crate::collide::HASH_NAMES[h]);
+                    vio.job = job.to_json();
+                }
+                return;
+            }
+        }
+    }
+    st.count("fingerprint_collision_pairs_checked", 1);
+    st.reach("collision_hashes", h as u64);
+}
+
 pub fn observe(ctx: &Ctx, st: &mut Stats, job: &Job) {
+    if job.fam == FAMS[4] {
+        return observe_pair(ctx, st, job);
+    }
     let cfg = job.config();
     st.eval();
     let exp = match symbol::expect(&cfg, &ctx.caps) {
